@@ -8,6 +8,7 @@ import (
 	"go/types"
 	"math/big"
 	"strings"
+	"sync"
 
 	"golang.org/x/tools/go/ssa"
 )
@@ -80,11 +81,16 @@ func isInteger(t types.Type) bool {
 	return false
 }
 
+var leafMu sync.Mutex
+
 func leavesOf(t types.Type) []Leaf {
 	k := typeKey(t)
+	leafMu.Lock()
 	if l, ok := leafCache[k]; ok {
+		leafMu.Unlock()
 		return l
 	}
+	leafMu.Unlock()
 	var out []Leaf
 	switch u := t.Underlying().(type) {
 	case *types.Struct:
@@ -121,7 +127,9 @@ func leavesOf(t types.Type) []Leaf {
 		}
 		out = []Leaf{{Path: "", Elem: t, Base: s, Sort: s}}
 	}
+	leafMu.Lock()
 	leafCache[k] = out
+	leafMu.Unlock()
 	return out
 }
 
@@ -227,6 +235,13 @@ func (c *Ctx) initialCell(key string, sort *Sort) Term {
 	pre := "h_"
 	if strings.HasPrefix(key, "g:") {
 		pre = "g_"
+		if c.groundFn != nil {
+			if data, ok := c.groundFn(key); ok {
+				t := c.registerTable(pre+cellName(strings.TrimPrefix(key, "g:")), sort, data)
+				c.initial[key] = t
+				return t
+			}
+		}
 	}
 	t := c.named(sort, pre+cellName(strings.TrimPrefix(key, "g:")))
 	c.initial[key] = t
@@ -290,6 +305,19 @@ func (c *Ctx) load(st map[string]Term, a *Addr) Val {
 	for _, l := range ls {
 		key := a.Key + fp + l.Path
 		full := wrapDims(len(idx), l.Sort)
+		if a.Kind == RGlobal && c.ufGlobals != nil && len(idx) > 0 && l.Sort.K != SArray {
+			if _, written := st[key]; !written && c.ufGlobals(key) {
+				// frozen, uninterpreted table: reads are applications of an uninterpreted function
+				name := "g_" + cellName(strings.TrimPrefix(key, "g:")) + "_uf"
+				var sorts []string
+				for range idx {
+					sorts = append(sorts, bvSort(64).String())
+				}
+				c.declareFun(name, sorts, l.Sort)
+				out.L = append(out.L, c.app(l.Sort, name, idx...))
+				continue
+			}
+		}
 		cur := c.cell(st, key, cellSort(a, full))
 		if a.Kind == RHeap {
 			cur = c.sel(cur, a.Ref)
